@@ -32,6 +32,10 @@ class Contract:
         """defining formulas of the ghosts / instances of definitional axioms of spec functions"""
         return ()
 
+    def call_defs(self, F):
+        """definitional facts a *caller* may assume (default: the same as ghost_defs)"""
+        return self.ghost_defs(F)
+
     def ensures(self, F):
         return ()
 
